@@ -377,19 +377,13 @@ func (m *{{ .Name }}) Delete(k {{ .KeyType }}) {
 }
 
 func (m *{{ .Name }}) delete(k {{ .KeyType }}) {
-var kk {{ .KeyType }}
-	i := -1
-
-	for i, kk = range m.order {
+	for i, kk := range m.order {
 		if kk == k {
+			m.order = append(m.order[:i], m.order[i+1:]...)
 			break
 		}
 	}
-
 	delete(m.data, k)
-	if i != -1 {
-		m.order = append(m.order[:i], m.order[i+1:]...)
-	}
 }
 
 // Filter iterates and changes values in the map.
